@@ -549,3 +549,33 @@ package data
 //@   ensures [C02.reshape-strides] implies(err.isnil && iprod(newShape, len(newShape)) > 1, as(r, nd{t}).Start == 0 && len(as(r, nd{t}).Impl) == iprod(newShape, len(newShape)) && forall(k, 0, len(newShape), as(r, nd{t}).OffsetStep[k] == pfrom(newShape, k+1, len(newShape))))
 //@   ensures [C02.reshape-addresses] implies(err.isnil && iprod(newShape, len(newShape)) > 1, forall(j, 0, iprod(newShape, len(newShape)), rmaddr(newShape, as(r, nd{t}).OffsetStep, j, len(newShape), len(newShape)) == j))
 //@   ensures [C02.reshape-rowmajor] implies(err.isnil && iprod(newShape, len(newShape)) > 1, forall(j, 0, iprod(newShape, len(newShape)), as(r, nd{t}).Impl[as(r, nd{t}).Start + rmaddr(newShape, as(r, nd{t}).OffsetStep, j, len(newShape), len(newShape))] == nd.Impl[nd.Start + rmaddr(nd.Dims, nd.OffsetStep, j, len(nd.Dims), len(nd.Dims))]))
+
+//@ func (*nd{t}).ReshapeFast(nd, newShape) returns (r, err)
+//@   safety C02
+//@   simplify entry-ids
+//@   requires len(newShape) >= 1 && forall(k, 0, len(newShape), newShape[k] >= 1)
+//@   requires len(nd.Dims) >= 1 && len(nd.OffsetStep) == len(nd.Dims) && len(nd.OriginalDims) == len(nd.Dims) && len(nd.Step) == len(nd.Dims) && len(nd.Offset) == len(nd.Dims)
+//@   requires forall(k, 0, len(nd.Dims), nd.OffsetStep[k] == nd.Offset[k]*nd.Step[k] && nd.Step[k] >= 1 && nd.Offset[k] == pfrom(nd.OriginalDims, k+1, len(nd.Dims)))
+//@   requires forall(k, 0, len(nd.Dims), nd.Dims[k] >= 1)
+//@   requires forall(j, 0, iprod(nd.Dims, len(nd.Dims)), 0 <= nd.Start + rmaddr(nd.Dims, nd.OffsetStep, j, len(nd.Dims), len(nd.Dims)) && nd.Start + rmaddr(nd.Dims, nd.OffsetStep, j, len(nd.Dims), len(nd.Dims)) < len(nd.Impl))
+//@   requires 0 <= nd.Start + rmaddr(nd.Dims, nd.OffsetStep, 0, len(nd.Dims), len(nd.Dims)) && nd.Start + rmaddr(nd.Dims, nd.OffsetStep, 0, len(nd.Dims), len(nd.Dims)) < len(nd.Impl) && 0 <= nd.Start + rmaddr(nd.Dims, nd.OffsetStep, iprod(nd.Dims, len(nd.Dims)) - 1, len(nd.Dims), len(nd.Dims)) && nd.Start + rmaddr(nd.Dims, nd.OffsetStep, iprod(nd.Dims, len(nd.Dims)) - 1, len(nd.Dims), len(nd.Dims)) < len(nd.Impl)
+//@   assigns nothing
+//@   dyntype r nd{t}
+//@   ensures [C02.reshapefast-fails-exactly-when] iff(err.isnil, contigc(nd.Dims, nd.OriginalDims, nd.Step, nd.Offset, len(nd.Dims)) && iprod(newShape, len(newShape)) == iprod(nd.Dims, len(nd.Dims)))
+//@   ensures [C02.reshapefast-aliases] implies(err.isnil, as(r, nd{t}).Impl.id == nd.Impl.id)
+//@   ensures [C02.reshapefast-rowmajor] implies(err.isnil && iprod(newShape, len(newShape)) > 1, forall(j, 0, iprod(newShape, len(newShape)), as(r, nd{t}).Impl[as(r, nd{t}).Start + rmaddr(newShape, as(r, nd{t}).OffsetStep, j, len(newShape), len(newShape))] == nd.Impl[nd.Start + rmaddr(nd.Dims, nd.OffsetStep, j, len(nd.Dims), len(nd.Dims))]))
+
+//@ func (*nd{t}).MustReshape(nd, newShape) returns (r)
+//@   safety C02
+//@   simplify entry-ids
+//@   requires len(newShape) >= 1 && forall(k, 0, len(newShape), newShape[k] >= 1)
+//@   requires len(nd.Dims) >= 1 && len(nd.OffsetStep) == len(nd.Dims) && len(nd.OriginalDims) == len(nd.Dims) && len(nd.Step) == len(nd.Dims) && len(nd.Offset) == len(nd.Dims)
+//@   requires forall(k, 0, len(nd.Dims), nd.OffsetStep[k] == nd.Offset[k]*nd.Step[k] && nd.Step[k] >= 1 && nd.Offset[k] == pfrom(nd.OriginalDims, k+1, len(nd.Dims)))
+//@   requires forall(k, 0, len(nd.Dims), nd.Dims[k] >= 1)
+//@   requires forall(j, 0, iprod(nd.Dims, len(nd.Dims)), 0 <= nd.Start + rmaddr(nd.Dims, nd.OffsetStep, j, len(nd.Dims), len(nd.Dims)) && nd.Start + rmaddr(nd.Dims, nd.OffsetStep, j, len(nd.Dims), len(nd.Dims)) < len(nd.Impl))
+//@   requires 0 <= nd.Start + rmaddr(nd.Dims, nd.OffsetStep, 0, len(nd.Dims), len(nd.Dims)) && nd.Start + rmaddr(nd.Dims, nd.OffsetStep, 0, len(nd.Dims), len(nd.Dims)) < len(nd.Impl) && 0 <= nd.Start + rmaddr(nd.Dims, nd.OffsetStep, iprod(nd.Dims, len(nd.Dims)) - 1, len(nd.Dims), len(nd.Dims)) && nd.Start + rmaddr(nd.Dims, nd.OffsetStep, iprod(nd.Dims, len(nd.Dims)) - 1, len(nd.Dims), len(nd.Dims)) < len(nd.Impl)
+//@   requires [C02.mustreshape-size] iprod(newShape, len(newShape)) == iprod(nd.Dims, len(nd.Dims))
+//@   assigns nothing
+//@   dyntype r nd{t}
+//@   ensures [C02.mustreshape-aliases-when-contiguous] implies(contigc(nd.Dims, nd.OriginalDims, nd.Step, nd.Offset, len(nd.Dims)), as(r, nd{t}).Impl.id == nd.Impl.id)
+//@   ensures [C02.mustreshape-rowmajor] implies(iprod(newShape, len(newShape)) > 1, forall(j, 0, iprod(newShape, len(newShape)), as(r, nd{t}).Impl[as(r, nd{t}).Start + rmaddr(newShape, as(r, nd{t}).OffsetStep, j, len(newShape), len(newShape))] == nd.Impl[nd.Start + rmaddr(nd.Dims, nd.OffsetStep, j, len(nd.Dims), len(nd.Dims))]))
